@@ -21,7 +21,8 @@ RULE = ("identity: datasets/moments/bounds as in C06 (n<=25, control features, r
         "predictor 1[i=k] the identity gamma_j(1_k)-gamma_j(0) = -w_k(e_j)/n is checked (n+|index|+1 calls cover the whole "
         "basis; by linearity this covers every lambda>=0 and every soft predictor), plus affinity of gamma in h and linearity "
         "of signed_weights in lambda on random combinations, the objective's weights vs cost-weighted error differences, the "
-        "loss-moment identity for BoundedGroupLoss, and project_lambda (non-negative, Lagrangian never lower, on basis and random "
+        "loss-moment identity for BoundedGroupLoss (groups first appearing in arbitrary order), in a third of the cases on a moment object "
+        "that was loaded with other data of the same size and queried before, and project_lambda (non-negative, Lagrangian never lower, on basis and random "
         "predictors). history: ExponentiatedGradient and GridSearch are fitted with a recording exact learner; every stored "
         "predictor's recorded (y, sample_weight) is compared with 1[w>0] and |w| (up to scale) for w recomputed from the "
         "multiplier vector recorded for it. distinct = distinct (moment, bound, n, #groups, #strata, #index entries); "
@@ -50,13 +51,22 @@ def run_identity(ctx, rng):
     bound = ML.BOUNDS[int(rng.integers(0, len(ML.BOUNDS)))]
     ds = ML.make_dataset(rng, nmin=4, nmax=25)
     moment, ratio, eps = ML.make_moment(kind, bound)
+    reloaded = bool(rng.random() < 0.35)
+    if reloaded:
+        # the moment object was used on other data of the same size before (refit of a reduction / shared constraints object)
+        ds0 = ML.make_dataset(rng, nmin=ds.n, nmax=ds.n, control=ds.c is not None)
+        X0, y0, g0, c0 = ML.wrap_inputs(rng, ds0)
+        ML.load(moment, X0, y0, g0, c0)
+        moment.gamma(ML.FixedPredictor(rng.random(ds0.n)))
+        moment.signed_weights(pd.Series(1.0, index=moment.index))
+        moment.project_lambda(pd.Series(1.0, index=moment.index))
     X, y, g, c = ML.wrap_inputs(rng, ds)
     ML.load(moment, X, y, g, c)
     n = ds.n
     idx = list(moment.index)
-    ctx.mark([kind, list(bound), n, len(set(ds.g)), None if ds.c is None else len(set(ds.c)), len(idx)], len(set(ds.g)) >= 2 and len(idx) >= 4,
+    ctx.mark([kind, list(bound), n, len(set(ds.g)), None if ds.c is None else len(set(ds.c)), len(idx), reloaded], len(set(ds.g)) >= 2 and len(idx) >= 4,
              sample={"moment": kind, "bound": list(bound), "y": ds.y, "groups": ds.g, "control": ds.c})
-    wit = {"moment": kind, "bound": list(bound), "y": ds.y, "groups": ds.g, "control": ds.c}
+    wit = {"moment": kind, "bound": list(bound), "y": ds.y, "groups": ds.g, "control": ds.c, "moment_loaded_with_other_data_before": reloaded}
     mapping, problems = ML.align_index(moment, kind, ds, ratio, rng)
     if problems:
         ctx.violate("index_does_not_match_definition:" + problems[0][0], detail=problems[0][1], wit=wit)
